@@ -199,10 +199,11 @@ def u2_files(sc, root: str) -> dict:
              f"{sid}/sub/deep/{nm['m1']}.py": decl(1), f"{sid}/sub/{nm['m2']}.py": decl(2)}
     if sc.get("variant") == "sharedbase":    # both classes in one module, derived from one private class with a public method
         files[f"{sid}/sub/deep/{nm['m1']}.py"] = (f"class _Base{s}:\n    def m_shared(self, from_base: int) -> int:\n        ...\n\n"
-                                                  f"    class Options:\n        def __init__(self, n: int):\n            ...\n\n"
+                                                  f"    class Options:\n        def __init__(self, n: int):\n            ...\n\n        def opt_m(self) -> int:\n            ...\n\n"
                                                   f"    class _Registry:\n        def __init__(self, size: int):\n            ...\n\n\n"
                                                   f"class {nm[1]}(_Base{s}):\n    def m_d1(self) -> int:\n        ...\n\n\n"
-                                                  f"class {nm[2]}(_Base{s}):\n    def m_shared(self, from_own: int) -> int:\n        ...\n\n    def m_d2(self) -> int:\n        ...\n")
+                                                  f"class {nm[2]}(_Base{s}):\n    def m_shared(self, from_own: int) -> int:\n        ...\n\n    def m_d2(self) -> int:\n        ...\n\n"
+                                                  f"    class Options:\n        def own_opt(self) -> int:\n            ...\n")
         files[f"{sid}/sub/{nm['m2']}.py"] = "def fillb" + s + "() -> int:\n    ...\n"
     if sc.get("variant") == "newtype":       # module 1 also defines a NewType, module 2 uses it
         m1, m2 = f"{sid}/sub/deep/{nm['m1']}.py", f"{sid}/sub/{nm['m2']}.py"
@@ -258,7 +259,8 @@ def u2_observe(sc, stubs: Stubs, rootname: str, idx: dict | None = None) -> dict
                 if sc.get("variant") == "suffixalias":      # the specification calls the two declarations declone / decltwo
                     shown = {"tail": "declone", "big_tail": "decltwo"}.get(shown, shown)
                 occs[tgt].append({"home": [("other" if seg == "_other" and sc.get("variant") == "privreexp" else seg.replace(mark, "")) for seg in file_home(f, rootname, sid)], "name": shown,
-                                  "members": [m.pyname for m in d.members if not m.pyname.startswith("_")],
+                                  "members": [m.pyname for m in d.members if not m.pyname.startswith("_")]
+                                  + [f"{m.pyname}.{x.pyname}" for m in d.members if m.kind == "class" and not m.pyname.startswith("_") for x in m.members if not x.pyname.startswith("_")],
                                   "privmembers": [m.pyname.replace(mark, "") for m in d.members if m.pyname.startswith("_") and not m.pyname.startswith("__")]})
     jp = {1: "absent", 2: "absent"}
     if idx is not None:
